@@ -80,9 +80,17 @@ def run_shard(mod, ctx: Ctx, props: dict[str, Any], replay_case: Any = None) -> 
                     ctx.count("corpus_cases")
                 ctx.pinned_phase = False
             # 2. generated workload
+            wd_s = getattr(mod, "CASE_WATCHDOG_S", 120.0)
             for case in mod.cases(ctx):
                 ctx.current_case = case
-                mod.judge(ctx, case)
+                try:
+                    with core.case_watchdog(wd_s):
+                        mod.judge(ctx, case)
+                except core.CaseWatchdog as e:
+                    ctx.inconclusive(f"{e}: {json.dumps(case, default=repr)[:300]}")
+                    ctx.count("case_watchdog_fired")
+                    if ctx.counters["case_watchdog_fired"] >= 3:
+                        break
                 if not ctx.more():
                     ctx.count("stopped_on_time_cap")
                     break
